@@ -58,3 +58,48 @@ def ledgerOK (status : StatusText) (final : Content) (credits : List (List (Nat 
 def lockThenOnlyBurnable (peggy : List String) (denom : String) : Bool := peggy.contains denom
 
 end Sif.Spec.C06
+
+namespace Sif.EthBridge
+open Sif.Oracle Sif.Spec.C06
+
+def Out.isOk : Out → Bool
+  | .failed _ => false
+  | _ => true
+
+def Msg.isClaim : Msg → Bool
+  | .claim _ => true
+  | _ => false
+
+/-- status of the prophecy `id` in an oracle state; an absent prophecy counts as pending -/
+def statusOf (o : OState) (id : String) : StatusText :=
+  match getProphecy o.prophecies id with
+  | some p => p.status
+  | none => .pending
+
+def finalOf (o : OState) (id : String) : Content :=
+  match getProphecy o.prophecies id with
+  | some p => p.final
+  | none => .empty
+
+/-- the credit a step of a history performs, with the prophecy id it is performed for: a claim message that is
+    accepted and reports SUCCESS credits the final claim of its prophecy (`Props.C06.credit_step` ties this to
+    the bank); no other step credits anything -/
+def stepCredit (ord : List Group → List Group) (w : World) : Step → Option (String × (Nat × String × Nat))
+  | .msg (.claim m) =>
+    if (deliver ord w.vals w.s (.claim m)).2 = .claimed .success then
+      (creditOf (finalOf (deliver ord w.vals w.s (.claim m)).1.oracle (claimOf m).id)).map (fun c => ((claimOf m).id, c))
+    else none
+  | _ => none
+
+/-- the credits one step performs for prophecy `id` (none or one) -/
+def creditFor (ord : List Group → List Group) (w : World) (st : Step) (id : String) : List (Nat × String × Nat) :=
+  match stepCredit ord w st with
+  | some (i, c) => if i = id then [c] else []
+  | none => []
+
+/-- all credits a history performs for prophecy `id`, in order -/
+def creditsOf (ord : List Group → List Group) (w : World) : List Step → String → List (Nat × String × Nat)
+  | [], _ => []
+  | st :: rest, id => creditFor ord w st id ++ creditsOf ord (stepWorld ord w st) rest id
+
+end Sif.EthBridge
